@@ -37,6 +37,7 @@ RULE = ("configurations: keep {0,1,2,3} x cyclePeriod {P,3P,10P} x fileSize {0,2
         "resumed by a second process; distinct = (configuration, crash point, resumed?); non-trivial = a twin of the workload "
         "process really died at the crash point (exit status 137 observed) after at least one record had been written, or the "
         "normal end was reached with >=1 flush")
+RULE = __import__("vf.core", fromlist=["rule_add"]).rule_add(RULE, 'a START sent to the running logger before anything was flushed')
 META = {"engine": "F logging", "technique": "forked twin killed with os._exit(137) at enumerated crash points + retained-files model replayed from the child's report; strace for flush->fsync order",
         "level_text": "fault enumeration: every tick boundary (and in thorough every executed line of the rotation/flush code) of each sampled configuration is a crash point",
         "level_note": "process death only (page cache survives); the killed process is a forked twin of the workload process, the files are copied right after its death; fsync is observed with strace, not tested by power loss; two always logs, a manual (never) log listed first and a once log listed last"}
